@@ -8,19 +8,20 @@
 
     Quantification: every theorem holds for all WAL directory contents (any names, files, directories,
     lines of every class), all keep ids, all states of the archive directory (missing, not a directory,
-    any entries including directories squatting on archive names and undecodable files) and all fault
-    oracles [fl] (per-log early/late write failure, per-file deletion failure).
+    any entries including directories squatting on archive names and undecodable files), all fault
+    oracles [fl] (per-log early/late write failure, per-file deletion failure) and both ways of building
+    the cleaner ([cleaner_dir w] is the directory it works on).
 
-    KnownClass predicates (decidable, in the model): [has_aliased_name] (AliasedLogName),
-    [cleaner_dir_differs] (CleanerDirMismatch), [has_wide_id] (WideLogIdOrder), [name_reused]
-    (ArchiveNameReused). *)
+    After the fix round (1c3fa90, db8e58e, 06752f6 in /repo) the model describes the repaired code —
+    the three behaviours are switched by flags regenerated from the Rust text, and the proofs need the
+    repaired values.  The theorems about deleted logs and about recovery now hold without any exclusion;
+    the only KnownClass left is [name_reused] (ArchiveNameReused). *)
 From Coq Require Import NArith List Bool.
 From Snel Require Import Base.Bytes Gen.Params Model.WalArchive Proofs.WalArchiveProofs.
 Import ListNotations.
 Open Scope N_scope.
 
-(** Conservative mode: if archiving any eligible file fails, no log file is deleted — neither in the
-    configured WAL directory nor in the cleaner's own one. *)
+(** Conservative mode: if archiving any eligible file fails, no log file is deleted. *)
 Theorem C19_no_delete_on_any_failure : forall fl w keep w' res,
   cleanup_up_to true fl w keep = (w', res) ->
   existsb is_none res = true ->
@@ -29,18 +30,16 @@ Proof. exact no_delete_on_any_failure. Qed.
 Print Assumptions C19_no_delete_on_any_failure.
 
 (** ... and every fault pattern of the statement does make the pass report a failure: the archive path
-    is not a directory, the file [archive_log] opens for an eligible scanned name is missing / a
-    directory / contains a non-UTF-8 line, the environment fails the write (early or late), or a
-    directory occupies the archive file name. *)
-Theorem C19_fault_patterns_fail : forall fl w keep w' res n o id,
+    is not a directory, an eligible log is a directory / contains a non-UTF-8 line, the environment fails
+    the write (early or late), or a directory occupies the archive file name. *)
+Theorem C19_fault_patterns_fail : forall fl w keep w' res o id,
   cleanup_up_to true fl w keep = (w', res) ->
-  In (n, o) (w_wal w) -> parse_log_name n = Some id -> walarch_eligible id keep = true ->
+  In (log_name id, o) (cleaner_dir w) -> parse_log_name (log_name id) = Some id -> walarch_eligible id keep = true ->
   (w_root w = RNotDir
-   \/ lookup (log_name id) (w_wal w) = None
-   \/ lookup (log_name id) (w_wal w) = Some WDir
-   \/ (exists ls, lookup (log_name id) (w_wal w) = Some (WFile ls) /\ parse_lines ls = None)
+   \/ lookup (log_name id) (cleaner_dir w) = Some WDir
+   \/ (exists ls, lookup (log_name id) (cleaner_dir w) = Some (WFile ls) /\ parse_lines ls = None)
    \/ f_io fl id <> IoOk
-   \/ (exists ls es, lookup (log_name id) (w_wal w) = Some (WFile ls) /\ parse_lines ls = Some es /\
+   \/ (exists ls es, lookup (log_name id) (cleaner_dir w) = Some (WFile ls) /\ parse_lines ls = Some es /\
                      root_lookup (afile_name (make_archive id es)) (w_root w) = Some ADirEnt)) ->
   existsb is_none res = true.
 Proof. exact fault_patterns_fail. Qed.
@@ -50,47 +49,37 @@ Print Assumptions C19_fault_patterns_fail.
     header and entries of the log it was made from — whether or not another file failed. *)
 Theorem C19_partial_failure_keeps_archives : forall fl w keep w' res nm,
   cleanup_up_to true fl w keep = (w', res) -> In (Some nm) res ->
-  exists id ls es, lookup (log_name id) (w_wal w) = Some (WFile ls) /\ parse_lines ls = Some es /\
+  exists id ls es, lookup (log_name id) (cleaner_dir w) = Some (WFile ls) /\ parse_lines ls = Some es /\
                    nm = afile_name (make_archive id es) /\
                    root_lookup nm (w_root w') = Some (AFile (make_archive id es)).
 Proof. exact partial_failure_keeps_archives. Qed.
 Print Assumptions C19_partial_failure_keeps_archives.
 
-(** "Every deleted log has an archive holding its entries" is FALSE of the model (and of the code):
-    (1) a file whose name scans to an id but is not the canonical name of that id ("wal-1.log" next to
-    "wal-00001.log") is deleted although only the canonical file was archived; (2) a cleaner built by
-    [with_wal_dir] deletes from its own directory while the archiver reads the configured one. *)
-Theorem C19_deleted_implies_archived_refuted :
-  (exists fl w keep n ls es,
-     NoDup (names (w_wal w)) /\ cleaner_dir_differs w = false /\ wal_wf (w_wal w) /\
-     In (n, WFile ls) (w_wal w) /\ parse_lines ls = Some es /\ es <> [] /\
-     lookup n (w_wal (fst (cleanup_up_to true fl w keep))) = None /\
-     forall nm f, root_lookup nm (w_root (fst (cleanup_up_to true fl w keep))) = Some (AFile f) -> a_entries f <> es)
-  /\
-  (exists fl w keep n ls es,
-     NoDup (names (cleaner_dir w)) /\ has_aliased_name (w_wal w) keep = false /\
-     has_aliased_name (cleaner_dir w) keep = false /\ wal_wf (cleaner_dir w) /\
-     In (n, WFile ls) (cleaner_dir w) /\ parse_lines ls = Some es /\ es <> [] /\
-     lookup n (cleaner_dir (fst (cleanup_up_to true fl w keep))) = None /\
-     forall nm f, root_lookup nm (w_root (fst (cleanup_up_to true fl w keep))) = Some (AFile f) -> a_entries f <> es).
-Proof. exact deleted_implies_archived_refuted. Qed.
-Print Assumptions C19_deleted_implies_archived_refuted.
-
-(** Outside these two classes: a log file that is gone after a conservative cleanup has, in the archive
-    directory, the archive made from exactly its parseable entries, in order, under its id. *)
-Theorem C19_deleted_implies_archived_outside_known : forall fl w keep w' res n ls,
-  NoDup (names (w_wal w)) ->
-  cleaner_dir_differs w = false -> has_aliased_name (w_wal w) keep = false ->
+(** Every log file that is gone after a conservative cleanup has, in the archive directory, the archive
+    made from exactly its parseable entries, in order, under its id.  No exclusion any more: foreign file
+    names and cleaners built by [with_wal_dir] are covered. *)
+Theorem C19_deleted_implies_archived : forall fl w keep w' res n ls,
+  NoDup (names (cleaner_dir w)) ->
   cleanup_up_to true fl w keep = (w', res) ->
-  In (n, WFile ls) (w_wal w) -> lookup n (w_wal w') = None ->
-  exists id es, parse_log_name n = Some id /\ parse_lines ls = Some es /\
+  In (n, WFile ls) (cleaner_dir w) -> lookup n (cleaner_dir w') = None ->
+  exists id es, n = log_name id /\ parse_log_name n = Some id /\ parse_lines ls = Some es /\
     root_lookup (afile_name (make_archive id es)) (w_root w') = Some (AFile (make_archive id es)).
-Proof. exact deleted_implies_archived_outside_known. Qed.
-Print Assumptions C19_deleted_implies_archived_outside_known.
+Proof. exact deleted_implies_archived. Qed.
+Print Assumptions C19_deleted_implies_archived.
+
+(** A file whose name is not the canonical name of an eligible id ("wal-1.log", "wal-+00001.log",
+    "notes.txt", …) is never removed, in either mode. *)
+Theorem C19_foreign_names_untouched : forall c fl w keep w' res n o,
+  cleanup_up_to c fl w keep = (w', res) ->
+  In (n, o) (cleaner_dir w) ->
+  (forall id, parse_log_name n = Some id -> walarch_eligible id keep = true -> n <> log_name id) ->
+  In (n, o) (cleaner_dir w').
+Proof. exact foreign_names_untouched. Qed.
+Print Assumptions C19_foreign_names_untouched.
 
 (** The archive encoding (MessagePack of ScalarValue, read back through serde_json::Value) is the
     identity on every entry read from a log line: event type, context, timestamp, id and each payload
-    value come back unchanged.  ([line_wf]: a JSON float is finite — serde_json yields no other.) *)
+    value come back unchanged.  ([line_wf]: a JSON float is finite, a timestamp is a u64.) *)
 Theorem C19_archive_roundtrip_lossless : forall id ls es,
   Forall line_wf ls -> parse_lines ls = Some es ->
   a_entries (make_archive id es) = es.
@@ -98,34 +87,24 @@ Proof. exact archive_roundtrip_lossless. Qed.
 Print Assumptions C19_archive_roundtrip_lossless.
 
 (** Recovery after a conservative cleanup that reported no failure returns exactly the entries of the
-    archived logs, each log's entries in line order, logs in id order — while the eligible ids have at
-    most 5 digits and the archive directory held no other "*.zst" entry. *)
-Theorem C19_recover_roundtrip_outside_known : forall fl wal keep root w' res,
-  NoDup (names wal) -> wal_wf wal ->
-  has_aliased_name wal keep = false -> has_wide_id wal keep = false ->
-  root <> RNotDir -> (forall n o, In (n, o) (dir_of root) -> has_ext n = false) ->
-  cleanup_up_to true fl (mkWorld wal None root) keep = (w', res) ->
+    archived logs, each log's entries in line order, logs in id order — for ids of any width — provided the
+    archive directory held no other "*.zst" entry. *)
+Theorem C19_recover_roundtrip : forall fl w keep w' res,
+  NoDup (names (cleaner_dir w)) -> wal_wf (cleaner_dir w) ->
+  w_root w <> RNotDir -> (forall n o, In (n, o) (dir_of (w_root w)) -> has_ext n = false) ->
+  cleanup_up_to true fl w keep = (w', res) ->
   existsb is_none res = false ->
-  recover_all (w_root w') = Some (expected_recovery wal keep).
-Proof. exact recover_roundtrip_outside_known. Qed.
-Print Assumptions C19_recover_roundtrip_outside_known.
+  recover_all (w_root w') = Some (expected_recovery (cleaner_dir w) keep).
+Proof. exact recover_roundtrip. Qed.
+Print Assumptions C19_recover_roundtrip.
 
-(** With a six-digit id the order is lost ("wal-100000-…" sorts before "wal-99999-…"). *)
-Theorem C19_recover_roundtrip_refuted :
-  exists fl wal keep root,
-    NoDup (names wal) /\ wal_wf wal /\ has_aliased_name wal keep = false /\ root = RMissing /\
-    existsb is_none (snd (cleanup_up_to true fl (mkWorld wal None root) keep)) = false /\
-    recover_all (w_root (fst (cleanup_up_to true fl (mkWorld wal None root) keep))) <> Some (expected_recovery wal keep).
-Proof. exact recover_roundtrip_refuted. Qed.
-Print Assumptions C19_recover_roundtrip_refuted.
-
-(** Archive names are NOT unique across cleanups: a log id reused after the WAL directory was emptied,
-    covering the same second range, is written over the earlier archive; the entries of the log deleted
-    by the first cleanup are in no archive afterwards. *)
+(** Archive names are NOT unique across cleanups (still the case): a log id reused after the WAL directory
+    was emptied, covering the same second range, is written over the earlier archive; the entries of the
+    log deleted by the first cleanup are in no archive afterwards. *)
 Theorem C19_archive_names_unique_refuted :
   exists root r1 r2 n ls es,
-    NoDup (names (r_wal r1)) /\ has_aliased_name (r_wal r1) (r_keep r1) = false /\ wal_wf (r_wal r1) /\
-    NoDup (names (r_wal r2)) /\ has_aliased_name (r_wal r2) (r_keep r2) = false /\ wal_wf (r_wal r2) /\
+    NoDup (names (r_wal r1)) /\ wal_wf (r_wal r1) /\
+    NoDup (names (r_wal r2)) /\ wal_wf (r_wal r2) /\
     In (n, WFile ls) (r_wal r1) /\ parse_lines ls = Some es /\ es <> [] /\
     lookup n (snd (fst (run_round root r1))) = None /\
     existsb is_none (snd (run_round (fst (fst (run_round root r1))) r2)) = false /\
@@ -143,7 +122,7 @@ Print Assumptions C19_archive_name_determines_id.
     whose name is not the archive name of a log it processes. *)
 Theorem C19_archive_kept_outside_known : forall c fl w keep w' res nm,
   cleanup_up_to c fl w keep = (w', res) ->
-  name_reused nm (w_wal w) keep = false ->
+  name_reused nm (cleaner_dir w) keep = false ->
   root_lookup nm (w_root w') = root_lookup nm (w_root w).
 Proof. exact archive_kept_outside_known. Qed.
 Print Assumptions C19_archive_kept_outside_known.
@@ -152,10 +131,10 @@ Print Assumptions C19_archive_kept_outside_known.
     (arbitrary WAL contents, keep ids and faults in each), provided none of them archives a log under
     the same archive file name. *)
 Theorem C19_history_deleted_stay_archived : forall root r h root1 wal1 res n ls,
-  NoDup (names (r_wal r)) -> has_aliased_name (r_wal r) (r_keep r) = false ->
+  NoDup (names (r_wal r)) ->
   run_round root r = (root1, wal1, res) ->
   In (n, WFile ls) (r_wal r) -> lookup n wal1 = None ->
-  exists id es, parse_log_name n = Some id /\ parse_lines ls = Some es /\
+  exists id es, n = log_name id /\ parse_lines ls = Some es /\
     (Forall (fun r' => name_reused (afile_name (make_archive id es)) (r_wal r') (r_keep r') = false) h ->
      root_lookup (afile_name (make_archive id es)) (run_history root1 h) = Some (AFile (make_archive id es))).
 Proof. exact history_deleted_stay_archived. Qed.
